@@ -168,7 +168,7 @@ def evaluate(case, out):
                 e, m = eta[j], mu[j]
                 if not out.expect(not math.isnan(e), "eta-nan", lambda: (j, eta[:10])):
                     break
-                if not out.expect(-tol * u <= e <= u * (1 + tol), "eta-outside-[0,u]", lambda: (j, e, u, m)):
+                if not out.expect(0 <= e <= u, "eta-outside-[0,u]", lambda: (j, e, u, m, e - u)):
                     break
                 # the ALPHA factor is affine in x: its minimum over [0,u] is at an endpoint
                 if m < u:
